@@ -212,7 +212,7 @@ PROPS = {
              "delta sums since reset mod 2^64, throughput = 8*growth/dt with the first-record convention of the suite; common end, totals, "
              "deltas, throughput and tcpState following the node with the latest end time; flow identity), every other flow unchanged "
              "(deep comparison of all fields), GetNumFlows == live 5-tuples, reset changes delta/throughput fields only. Non-trivial = >= 2 "
-             "records on one flow; distinct by hash of the history. ALSO: In half of the flows the two reporting nodes see the flow start in different seconds.",
+             "records on one flow; distinct by hash of the history. ALSO: In half of the flows the two reporting nodes see the flow start in different seconds. One record operation in three travels in ONE MESSAGE with a record of a seventh flow (the companion: one reporting stream, own 5-tuple), before or after it; both flows are then compared with the model, all others must be unchanged.",
              COMMON_ASSUME + ["totals stay below 2^60 (octet growth >= 2^61 between two records would overflow the library's 64-bit product; not generated)",
                               "flowEndReason stickiness and httpVals merging are not in the statement and are not asserted",
                               "contract-violating inputs (out-of-order records of one node) are outside the statement and are not generated"],
